@@ -1,48 +1,63 @@
 (* C16 — executable correspondence interface: the Go harness prints [case] terms holding the
    input AND what the implementation was observed to do; [check_case] compares with the model
-   (current tree = Fixed) and evaluates the spec oracle on the observation. *)
+   (current tree = Fixed) and evaluates the spec oracle on the observation.
+
+   [sizes]/[dflt] = the buffer sizes of the Read calls that reached the wrapper (recorded by the
+   harness, or known from the consumption path: 32 KiB for io.Copy, the given buffer for
+   io.CopyBuffer, the destination's choice when io.Copy hands the wrapper to its ReadFrom);
+   for [CMulti] with [writeto = true] they are the sizes used to copy each source inside WriteTo.
+   [ncl] = how many times the consumer then called Close. *)
 From Kit Require Export C16.Model C16.Spec Lib.CheckLib.
 
 Definition mkc (sizes : list Z) (dflt : Z) : consumer :=
   {| csizes := map Z.to_nat sizes; cdflt := Z.to_nat dflt |}.
 
 Inductive case :=
-| CLimit (n : Z) (s : list rd) (sizes : list Z) (dflt : Z)
+| CLimit (n : Z) (s : list rd) (sizes : list Z) (dflt : Z) (ncl : Z)
          (obs_out : list N) (obs_err : err) (obs_closes_before obs_closes_after : Z)
-| CMulti (srcs : list (list rd * bool)) (writeto : bool) (sizes : list Z) (dflt : Z)
+| CMulti (srcs : list (list rd * bool)) (writeto : bool) (sizes : list Z) (dflt : Z) (ncl : Z)
          (obs_out : list N) (obs_err : err) (obs_closes_before obs_closes_after : list Z)
-| CTee (s : list rd) (budget : option Z) (sizes : list Z) (dflt : Z)
-       (obs_out : list N) (obs_err : err) (obs_written : list N) (obs_src_closes obs_w_closes : Z).
+| CTee (s : list rd) (budget : option Z) (sizes : list Z) (dflt : Z) (ncl : Z)
+       (obs_out : list N) (obs_err : err) (obs_written : list N) (obs_src_closes obs_w_closes : Z)
+(* the Go type of wrapper [w] was observed (interface assertion) to implement / not implement [i] *)
+| CIface (w : wrapper) (i : iface) (obs_implemented : bool).
 
 Definition opt_err_eqb (a : option err) (b : err) : bool :=
   match a with Some a' => err_eqb a' b | None => false end.
 
 Definition model_agrees (v : variant) (c : case) : bool :=
   match c with
-  | CLimit n s sizes dflt o e cb ca =>
-      let '(mo, me, mcb, mca) := limit_run v n s (mkc sizes dflt) in
+  | CLimit n s sizes dflt k o e cb ca =>
+      let '(mo, me, mcb, mca) := limit_run v n s (mkc sizes dflt) (Z.to_nat k) in
       eqb_listN mo o && opt_err_eqb me e && Nat.eqb mcb (Z.to_nat cb) && Nat.eqb mca (Z.to_nat ca)
-  | CMulti srcs wt sizes dflt o e cb ca =>
+  | CMulti srcs wt sizes dflt k o e cb ca =>
       let '(mo, me, mcb, mca) :=
-        multi_run v srcs (if wt then None else Some (mkc sizes dflt)) in
+        multi_run v srcs (if wt then ViaWriteTo (mkc sizes dflt) else ViaRead (mkc sizes dflt))
+                  (Z.to_nat k) in
       eqb_listN mo o && opt_err_eqb me e && eqb_listnat mcb (map Z.to_nat cb)
       && eqb_listnat mca (map Z.to_nat ca)
-  | CTee s b sizes dflt o e w sc wc =>
-      let '(mo, me, mw, msc, mwc) := tee_run s (option_map Z.to_nat b) (mkc sizes dflt) in
+  | CTee s b sizes dflt k o e w sc wc =>
+      let '(mo, me, mw, msc, mwc) :=
+        tee_run s (option_map Z.to_nat b) (mkc sizes dflt) (Z.to_nat k) in
       eqb_listN mo o && opt_err_eqb me e && eqb_listN mw w && Nat.eqb msc (Z.to_nat sc)
       && Nat.eqb mwc (Z.to_nat wc)
+  | CIface w i obs => Bool.eqb (implements w i) obs
   end.
 
 Definition oracle (c : case) : bool :=
   match c with
-  | CLimit n s _ _ o e _ ca => limit_oracle n s o e (Z.to_nat ca)
-  | CMulti srcs _ _ _ o e _ ca => multi_oracle srcs o e (map Z.to_nat ca)
-  | CTee s b _ _ o e w sc wc => tee_oracle s (option_map Z.to_nat b) o e w (Z.to_nat sc) (Z.to_nat wc)
+  | CLimit n s _ _ _ o e cb ca => limit_oracle n s o e (Z.to_nat cb) (Z.to_nat ca)
+  | CMulti srcs _ _ _ _ o e _ ca => multi_oracle srcs o e (map Z.to_nat ca)
+  | CTee s b _ _ _ o e w sc wc =>
+      tee_oracle s (option_map Z.to_nat b) o e w (Z.to_nat sc) (Z.to_nat wc)
+  | CIface _ _ _ => true   (* the property does not speak of method sets: correspondence only *)
   end.
 
 (* 0 = agree and oracle holds; 1 = model and implementation differ; 2 = the implementation's
-   observed behaviour violates the spec. *)
+   observed behaviour violates the spec (and the model reproduces it); 3 = it violates the spec
+   and the model does not reproduce it. *)
 Definition check_case (c : case) : Z :=
-  if negb (oracle c) then 2 else if negb (model_agrees Fixed c) then 1 else 0.
+  if negb (oracle c) then (if model_agrees Fixed c then 2 else 3)
+  else if negb (model_agrees Fixed c) then 1 else 0.
 
 Definition run_cases (cs : list (Z * case)) : list (Z * Z) := failures check_case cs.
